@@ -249,6 +249,12 @@ class H(S.Hooks):
         for q, v in mine.items():
             w = theirs.get(q)
             if w is not None and w != v and "Deep" not in v + w:
+                if not self.uncached_in_deleted_space and _known(live, q, v, w) == "C13-caught-failure-untracked":
+                    # the `except` value of a formula that handled a callee's failure, kept although a later edit
+                    # makes the callee succeed: C02's recorded finding (no dependency on a failed callee), not a
+                    # value computed from a deleted object - C02 reports it, C13 does not speak about it
+                    stats["differences_left_to_C02_caught_failure"] = stats.get("differences_left_to_C02_caught_failure", 0) + 1
+                    continue
                 out.fail("%s returns %s but a model to which only the edits were applied returns %s "
                          "(a value computed from a deleted object survived?)" % (q, v, w), S.hist_json(ops),
                          key=KNOWN_SPACE if self.uncached_in_deleted_space else _known(live, q, v, w))
